@@ -118,6 +118,12 @@ Section Delete.
   Lemma delete_ep_done e : ecl e = o -> ep_done s' e = true.
   Proof. intros He. unfold ep_done. rewrite He, delete_cl_done. reflexivity. Qed.
 
+  Lemma delete_probe_done e : ecl e = o -> probe_done s' e = true.
+  Proof.
+    intros He. unfold probe_done. destruct (pparent e); [rewrite (delete_ep_done e He)|rewrite He, delete_cl_done];
+      apply orb_true_r.
+  Qed.
+
   Lemma delete_ep_other e : ecl e <> o -> ep_done s' e = ep_done s e.
   Proof. intros He. unfold ep_done. rewrite delete_cl_other by exact He. reflexivity. Qed.
 
@@ -127,7 +133,7 @@ Section Delete.
   (* probing of them stops *)
   Lemma delete_no_probe eo e : find_ep s eo = Some e -> ecl e = o -> snd (step rc s' (OTick eo)) = [].
   Proof.
-    intros Hf He. simpl. rewrite delete_find_ep, Hf. unfold probe_done. rewrite (delete_ep_done e He). reflexivity.
+    intros Hf He. simpl. rewrite delete_find_ep, Hf. rewrite (delete_probe_done e He). reflexivity.
   Qed.
 
   (* every request in flight on an endpoint of the cluster has a done context *)
@@ -172,7 +178,7 @@ Section Delete.
   Proof.
     unfold ready_names. induction ups as [|n r IH]; simpl; [reflexivity|].
     destruct (live_ep s' o n) as [e|] eqn:E; [|exact IH].
-    destruct (live_ep_cl _ _ _ _ E) as [He _]. rewrite He, delete_cl_done. simpl. rewrite andb_false_r. exact IH.
+    destruct (live_ep_cl _ _ _ _ E) as [He _]. rewrite He, delete_cl_done. simpl. rewrite !andb_false_r. exact IH.
   Qed.
 
   (* a request that resolved the cluster before the deletion and is dispatched after it: 503, nothing forwarded *)
@@ -193,17 +199,46 @@ Section Delete.
 End Delete.
 
 (* ---------- endpoint removal ---------- *)
+Lemma ensure_same par e :
+  eobj (ensure par e) = eobj e /\ ecl (ensure par e) = ecl e /\ ename (ensure par e) = ename e
+  /\ elive (ensure par e) = elive e /\ ecancel (ensure par e) = ecancel e /\ ehealthy (ensure par e) = ehealthy e
+  /\ edisabled (ensure par e) = edisabled e.
+Proof. unfold ensure. destruct (edisabled e); [|destruct (eprobing e)]; simpl; repeat split; reflexivity. Qed.
+
+Lemma ensure_parent par e : pparent e = PEp -> par = PEp -> pparent (ensure par e) = PEp.
+Proof. intros H ->. unfold ensure. destruct (edisabled e); [|destruct (eprobing e)]; simpl; auto. Qed.
+
+Lemma update_ep_same o sv e :
+  eobj (update_ep o sv e) = eobj e /\ ecl (update_ep o sv e) = ecl e /\ ename (update_ep o sv e) = ename e
+  /\ elive (update_ep o sv e) = elive e /\ ecancel (update_ep o sv e) = ecancel e
+  /\ ehealthy (update_ep o sv e) = ehealthy e.
+Proof.
+  unfold update_ep. destruct ((ecl e =? o) && elive e); [|repeat split; reflexivity].
+  match goal with |- context [ensure ?p ?x] => destruct (ensure_same p x) as [H1 [H2 [H3 [H4 [H5 [H6 _]]]]]] end.
+  simpl in *. repeat split; assumption.
+Qed.
+
+Lemma update_ep_id o sv e : (ecl e <> o \/ elive e = false) -> update_ep o sv e = e.
+Proof.
+  intros H. unfold update_ep. destruct H as [H|H].
+  - assert (E : ecl e =? o = false) by lia. rewrite E. reflexivity.
+  - rewrite H, andb_false_r. reflexivity.
+Qed.
+
 Section Remove.
-  Variables (rc : bool) (s : st) (name : Z) (aliases want : list Z) (o : Z) (c : clo).
+  Variables (rc : bool) (s : st) (name : Z) (aliases : list Z) (sv : list (Z * bool)) (o : Z) (c : clo).
   Hypothesis Hres : resolve s name = Some o.
   Hypothesis Hcl : find_cl s o = Some c.
   Hypothesis Hprim : primary c = name.
   Hypothesis Hconf : conflict s o (name :: aliases) = false.
+  (* every probe context was derived from its endpoint's context (true in every reachable state: pp_run) *)
+  Hypothesis Hpp : forall e, In e (eps s) -> pparent e = PEp.
 
-  Let s' := fst (step rc s (OUpsert name aliases want)).
+  Let want := map fst sv.
+  Let s' := fst (step rc s (OUpsert name aliases sv)).
   Let added := filter (fun n => negb (zmem n (live_names s o))) (dedup want).
 
-  Lemma remove_eps : eps s' = map (drop_ep o want) (eps s) ++ fresh_eps (next s) o added.
+  Lemma remove_eps : eps s' = map (update_ep o sv) (map (drop_ep o want) (eps s)) ++ fresh_eps (next s) o sv added.
   Proof.
     unfold s'. simpl. unfold upsert. rewrite Hres, Hcl, Hprim, Z.eqb_refl, Hconf. reflexivity.
   Qed.
@@ -219,11 +254,15 @@ Section Remove.
   Lemma drop_ep_key e : eobj (drop_ep o want e) = eobj e.
   Proof. unfold drop_ep. destruct ((ecl e =? o) && elive e && negb (zmem (ename e) want)); reflexivity. Qed.
 
-  Lemma remove_find_ep eo e : find_ep s eo = Some e -> find_ep s' eo = Some (drop_ep o want e).
+  Lemma remove_find_ep eo e : find_ep s eo = Some e -> find_ep s' eo = Some (update_ep o sv (drop_ep o want e)).
   Proof.
     intros H. unfold find_ep in *. rewrite remove_eps, find_app.
+    rewrite (find_map_key eobj (update_ep o sv) eo); [|intros x; apply update_ep_same].
     rewrite (find_map_key eobj (drop_ep o want) eo (eps s) drop_ep_key). rewrite H. reflexivity.
   Qed.
+
+  Lemma find_ep_In eo e : find_ep s eo = Some e -> In e (eps s).
+  Proof. unfold find_ep. intros H. apply find_some in H. tauto. Qed.
 
   (* no cluster context changes *)
   Lemma remove_cl_done o2 : cl_done s' o2 = cl_done s o2.
@@ -234,18 +273,24 @@ Section Remove.
     simpl. destruct (cobj c2 =? o); reflexivity.
   Qed.
 
-  (* the removed endpoint: out of the map, its context (and probe context) done, never probed *)
+  (* the removed endpoint: out of the map, its context done, its probe context done — whatever path
+     (new endpoint, or update after a disable / a late enable) started the probe loop — and never probed *)
   Lemma remove_gone eo e :
     find_ep s eo = Some e -> ecl e = o -> elive e = true -> zmem (ename e) want = false ->
     exists e', find_ep s' eo = Some e' /\ elive e' = false /\ ecancel e' = true /\ ep_done s' e' = true
-               /\ snd (step rc s' (OTick eo)) = [].
+               /\ probe_done s' e' = true /\ snd (step rc s' (OTick eo)) = [].
   Proof.
-    intros Hf He Hl Hw. exists (drop_ep o want e). rewrite (remove_find_ep eo e Hf).
-    unfold drop_ep. rewrite He, Z.eqb_refl, Hl, Hw. simpl.
-    repeat split; try reflexivity.
-    - unfold ep_done. simpl. apply orb_true_r.
-    - pose proof (remove_find_ep eo e Hf) as H. unfold drop_ep in H. rewrite He, Z.eqb_refl, Hl, Hw in H. simpl in H.
-      rewrite H. unfold probe_done, ep_done. simpl. rewrite orb_true_r. reflexivity.
+    intros Hf He Hl Hw.
+    set (d := mkEp (eobj e) (ecl e) (ename e) false true (ehealthy e) (edisabled e) (eprobing e) (pparent e)).
+    assert (Hd : drop_ep o want e = d).
+    { unfold drop_ep. rewrite He, Z.eqb_refl, Hl, Hw. reflexivity. }
+    assert (Hu : update_ep o sv d = d) by (apply update_ep_id; right; reflexivity).
+    assert (Hf' : find_ep s' eo = Some d) by (rewrite (remove_find_ep eo e Hf), Hd, Hu; reflexivity).
+    assert (Hdone : ep_done s' d = true) by (unfold ep_done; simpl; apply orb_true_r).
+    assert (Hp : probe_done s' d = true).
+    { unfold probe_done. simpl. rewrite (Hpp e (find_ep_In eo e Hf)). rewrite Hdone. apply orb_true_r. }
+    exists d. split; [exact Hf'|]. split; [reflexivity|]. split; [reflexivity|]. split; [exact Hdone|].
+    split; [exact Hp|]. simpl. rewrite Hf', Hp. reflexivity.
   Qed.
 
   (* requests in flight on it have a done context *)
@@ -258,18 +303,29 @@ Section Remove.
     unfold req_done, ep_done_obj. rewrite Hrep, Hf', Hd. apply orb_true_r.
   Qed.
 
-  (* siblings and endpoints of other clusters: same object, same flags, same context *)
+  (* siblings and endpoints of other clusters: same object (identity, URL, map membership, cancel flag,
+     health), same context; an endpoint of another cluster or one that had left the map is the same record *)
   Lemma remove_sibling eo e :
     find_ep s eo = Some e -> (ecl e <> o \/ zmem (ename e) want = true \/ elive e = false) ->
-    find_ep s' eo = Some e /\ ep_done s' e = ep_done s e.
+    exists e', find_ep s' eo = Some e' /\ eobj e' = eobj e /\ ecl e' = ecl e /\ ename e' = ename e
+               /\ elive e' = elive e /\ ecancel e' = ecancel e /\ ehealthy e' = ehealthy e
+               /\ ep_done s' e' = ep_done s e
+               /\ ((ecl e <> o \/ elive e = false) -> e' = e).
   Proof.
-    intros Hf Hk. rewrite (remove_find_ep eo e Hf). unfold drop_ep.
-    assert (E : (ecl e =? o) && elive e && negb (zmem (ename e) want) = false).
-    { destruct Hk as [H|[H|H]].
-      - assert (H0 : ecl e =? o = false) by lia. rewrite H0. reflexivity.
-      - rewrite H. apply andb_false_r.
-      - rewrite H. rewrite andb_false_r. reflexivity. }
-    rewrite E. split; [reflexivity|]. unfold ep_done. rewrite remove_cl_done. reflexivity.
+    intros Hf Hk.
+    assert (E : drop_ep o want e = e).
+    { unfold drop_ep.
+      assert (E0 : (ecl e =? o) && elive e && negb (zmem (ename e) want) = false).
+      { destruct Hk as [H|[H|H]].
+        - assert (H0 : ecl e =? o = false) by lia. rewrite H0. reflexivity.
+        - rewrite H. apply andb_false_r.
+        - rewrite H. rewrite andb_false_r. reflexivity. }
+      rewrite E0. reflexivity. }
+    exists (update_ep o sv e). rewrite (remove_find_ep eo e Hf), E.
+    destruct (update_ep_same o sv e) as [H1 [H2 [H3 [H4 [H5 H6]]]]].
+    split; [reflexivity|]. repeat (split; [assumption|]). split.
+    - unfold ep_done. rewrite H2, H5, remove_cl_done. reflexivity.
+    - intros H. apply update_ep_id. exact H.
   Qed.
 
   Lemma remove_req_other r :
@@ -279,7 +335,7 @@ Section Remove.
     end -> req_done s' r = req_done s r.
   Proof.
     intros H. unfold req_done, ep_done_obj. destruct (rep r) as [eo|]; [|reflexivity].
-    destruct H as [e [Hf Hk]]. destruct (remove_sibling eo e Hf Hk) as [Hf' Hd].
+    destruct H as [e [Hf Hk]]. destruct (remove_sibling eo e Hf Hk) as [e' [Hf' [_ [_ [_ [_ [_ [_ [Hd _]]]]]]]]].
     rewrite Hf, Hf', Hd. reflexivity.
   Qed.
 
@@ -355,8 +411,12 @@ Lemma eps_grows rc s op : ep_ext (eps s) (eps (fst (step rc s op))).
 Proof.
   destruct op as [name aliases want|name|eo0|eo0|id0 host sub|id0 choice|id0|id0|id0|id0]; simpl; unfold upsert, delete, upd_rq; crack;
     try apply ep_ext_refl; try apply ep_ext_app.
-  - match goal with |- ep_ext _ (map (drop_ep ?o ?w) _ ++ _) => destruct (drop_ep_props o w) as [H1 [H2 [H3 H4]]] end.
-    eapply ep_ext_trans; [apply ep_ext_map; eauto|apply ep_ext_app].
+  - match goal with |- ep_ext _ (map (update_ep ?o ?sv) (map (drop_ep ?o ?w) _) ++ _) =>
+      destruct (drop_ep_props o w) as [H1 [H2 [H3 H4]]];
+      pose proof (update_ep_same o sv) as Hu end.
+    eapply ep_ext_trans; [apply ep_ext_map; eauto|].
+    eapply ep_ext_trans; [|apply ep_ext_app].
+    apply ep_ext_map; intros x; destruct (Hu x) as [U1 [U2 [U3 [U4 [U5 U6]]]]]; try assumption; congruence.
   - apply ep_ext_map; intros x; destruct (eobj x =? eo0); simpl; auto.
 Qed.
 
@@ -467,27 +527,23 @@ Qed.
 Definition wf (s : st) : Prop :=
   NoDup (map eobj (eps s)) /\ (forall e, In e (eps s) -> eobj e < next s).
 
-Lemma fresh_ids base o : forall ns,
-  map eobj (fresh_eps base o ns) = map (fun k => base + Z.of_nat k) (seq 0 (List.length ns)).
-Proof.
-  intros ns. revert base. induction ns as [|n r IH]; intros base; simpl; [reflexivity|].
-  f_equal; [lia|]. rewrite IH. rewrite <- seq_shift, map_map. apply map_ext. intros k. lia.
-Qed.
-
-Lemma fresh_range base o ns e : In e (fresh_eps base o ns) -> base <= eobj e < base + Z.of_nat (List.length ns).
+Lemma fresh_range base o sv ns e : In e (fresh_eps base o sv ns) -> base <= eobj e < base + Z.of_nat (List.length ns).
 Proof.
   revert base. induction ns as [|n r IH]; intros base Hin; simpl in *; [destruct Hin|].
-  destruct Hin as [<-|Hin]; simpl; [lia|]. specialize (IH _ Hin). lia.
+  destruct Hin as [<-|Hin]; [|specialize (IH _ Hin); lia].
+  match goal with |- context [ensure ?p ?x] => destruct (ensure_same p x) as [H1 _] end. rewrite H1. simpl. lia.
 Qed.
 
-Lemma fresh_length base o ns : List.length (fresh_eps base o ns) = List.length ns.
+Lemma fresh_length base o sv ns : List.length (fresh_eps base o sv ns) = List.length ns.
 Proof. revert base. induction ns as [|n r IH]; intros base; simpl; [reflexivity|]. rewrite IH. reflexivity. Qed.
 
-Lemma fresh_nodup base o ns : NoDup (map eobj (fresh_eps base o ns)).
+Lemma fresh_nodup base o sv ns : NoDup (map eobj (fresh_eps base o sv ns)).
 Proof.
   revert base. induction ns as [|n r IH]; intros base; simpl; [constructor|].
   constructor; [|apply IH]. intros Hin. apply in_map_iff in Hin. destruct Hin as [e [He Hin]].
-  pose proof (fresh_range _ _ _ _ Hin). lia.
+  pose proof (fresh_range _ _ _ _ _ Hin).
+  match type of He with context [ensure ?p ?x] => destruct (ensure_same p x) as [H1 _] end.
+  rewrite H1 in He. simpl in He. lia.
 Qed.
 
 Lemma nodup_app_ids (a b : list epo) (bound : Z) :
@@ -512,25 +568,27 @@ Proof.
     try (unfold upd_rq; crack; split; assumption).
   - unfold upsert. crack; try (split; assumption).
     + (* sync: drop + fresh *)
-      match goal with |- wf (mkSt _ _ (map (drop_ep ?o ?w) _ ++ fresh_eps _ _ ?added) _ _) =>
-        set (ad := added); destruct (drop_ep_props o w) as [Hk _] end.
+      match goal with |- wf (mkSt _ _ (map (update_ep ?o ?sv) (map (drop_ep ?o ?w) _) ++ fresh_eps _ _ _ ?added) _ _) =>
+        set (ad := added); destruct (drop_ep_props o w) as [Hk _];
+        assert (Hk2 : forall x, eobj (update_ep o sv (drop_ep o w x)) = eobj x)
+          by (intros x; destruct (update_ep_same o sv (drop_ep o w x)) as [U _]; rewrite U; apply Hk) end.
       split; simpl.
       * apply (nodup_app_ids _ _ (next s)).
-        -- rewrite map_map. erewrite map_ext; [exact Hnd|]. intros x. apply Hk.
+        -- rewrite !map_map. erewrite map_ext; [exact Hnd|]. intros x. apply Hk2.
         -- apply fresh_nodup.
-        -- intros e He. apply in_map_iff in He. destruct He as [x [<- Hx]]. rewrite Hk. apply Hlt. exact Hx.
-        -- intros e He. pose proof (fresh_range _ _ _ _ He). lia.
+        -- intros e He. rewrite map_map in He. apply in_map_iff in He. destruct He as [x [<- Hx]]. rewrite Hk2. apply Hlt. exact Hx.
+        -- intros e He. pose proof (fresh_range _ _ _ _ _ He). lia.
       * intros e He. apply in_app_or in He. destruct He as [He|He].
-        -- apply in_map_iff in He. destruct He as [x [<- Hx]]. rewrite Hk. pose proof (Hlt x Hx). lia.
-        -- pose proof (fresh_range _ _ _ _ He). lia.
+        -- rewrite map_map in He. apply in_map_iff in He. destruct He as [x [<- Hx]]. rewrite Hk2. pose proof (Hlt x Hx). lia.
+        -- pose proof (fresh_range _ _ _ _ _ He). lia.
     + (* create *)
       split; simpl.
       * apply (nodup_app_ids _ _ (next s + 1)); [exact Hnd|apply fresh_nodup| |].
         -- intros e He. pose proof (Hlt e He). lia.
-        -- intros e He. pose proof (fresh_range _ _ _ _ He). lia.
+        -- intros e He. pose proof (fresh_range _ _ _ _ _ He). lia.
       * intros e He. apply in_app_or in He. rewrite fresh_length. destruct He as [He|He].
         -- pose proof (Hlt e He). lia.
-        -- pose proof (fresh_range _ _ _ _ He). lia.
+        -- pose proof (fresh_range _ _ _ _ _ He). lia.
   - unfold delete. crack; split; assumption.
   - crack; try (split; assumption). split; simpl.
     + rewrite map_map. erewrite map_ext; [exact Hnd|]. intros x. destruct (eobj x =? eo0); reflexivity.
@@ -558,7 +616,7 @@ Lemma ready_In rc s o ups n :
 Proof.
   unfold ready_names. rewrite filter_In. intros [_ H].
   destruct (live_ep s o n) as [e|]; [|discriminate]. exists e. split; [reflexivity|].
-  apply andb_prop in H. destruct H as [Hh Hc]. split; [exact Hh|].
+  apply andb_prop in H. destruct H as [Hh Hc]. apply andb_prop in Hh. destruct Hh as [_ Hh]. split; [exact Hh|].
   intros ->. unfold ep_done. destruct (cl_done s (ecl e) || ecancel e); [discriminate|reflexivity].
 Qed.
 
@@ -597,3 +655,36 @@ Lemma done_cannot_finish rc s id r :
 Proof.
   intros Hf Hd. simpl. rewrite Hf. split; destruct (rph r); try reflexivity; rewrite Hd; reflexivity.
 Qed.
+
+(* ---------- every probe context is derived from its endpoint's context ---------- *)
+Definition pp_ok (s : st) : Prop := forall e, In e (eps s) -> pparent e = PEp.
+
+Lemma fresh_parent base o sv ns e : In e (fresh_eps base o sv ns) -> pparent e = PEp.
+Proof.
+  revert base. induction ns as [|n r IH]; intros base Hin; simpl in Hin; [destruct Hin|].
+  destruct Hin as [<-|Hin]; [apply ensure_parent; reflexivity|exact (IH _ Hin)].
+Qed.
+
+Lemma pp_step rc s op : pp_ok s -> pp_ok (fst (step rc s op)).
+Proof.
+  intros Hp.
+  destruct op as [name aliases sv|name|eo0|eo0|id0 host sub|id0 choice|id0|id0|id0|id0]; simpl;
+    try (unfold upd_rq; crack; exact Hp).
+  - unfold upsert. crack; try exact Hp.
+    + intros e He. simpl in He. apply in_app_or in He. destruct He as [He|He]; [|exact (fresh_parent _ _ _ _ _ He)].
+      rewrite map_map in He. apply in_map_iff in He. destruct He as [x [<- Hx]].
+      assert (Hd : pparent (drop_ep z (map fst sv) x) = PEp).
+      { unfold drop_ep. destruct ((ecl x =? z) && elive x && negb (zmem (ename x) (map fst sv))); simpl; apply Hp; exact Hx. }
+      unfold update_ep. destruct ((ecl (drop_ep z (map fst sv) x) =? z) && elive (drop_ep z (map fst sv) x)); [|exact Hd].
+      apply ensure_parent; [exact Hd|reflexivity].
+    + intros e He. simpl in He. apply in_app_or in He. destruct He as [He|He]; [exact (Hp e He)|exact (fresh_parent _ _ _ _ _ He)].
+  - unfold delete. crack; exact Hp.
+  - crack; try exact Hp. intros e' He. simpl in He. apply in_map_iff in He. destruct He as [x [<- Hx]].
+    destruct (eobj x =? eo0); simpl; apply Hp; exact Hx.
+Qed.
+
+Lemma pp_run rc : forall ops s, pp_ok s -> pp_ok (run rc s ops).
+Proof. induction ops as [|o r IH]; intros s H; simpl; [exact H|]. apply IH. apply pp_step. exact H. Qed.
+
+Lemma pp_init : pp_ok init.
+Proof. intros e []. Qed.
